@@ -481,5 +481,31 @@ PROPS["C19"] = {
     "assumptions": ["the source does not change between `load` and `cache`"],
 }
 
+PROPS["C17"] = {
+    "package": "c17", "exe": "m_c17",
+    "rule": "random repositories as for C19 (delegation trees to depth 3 with up to 6 roles, target and role names with spaces, "
+            "non-ASCII and sub-directories, both consistent-snapshot settings, pinned lengths / hashes or not), every target "
+            "entry with custom data, every timestamp / snapshot / targets document with two unknown top-level members (a number "
+            "and a nested object with non-ASCII text); loaded with the real client, passed through RepositoryEditor::from_repo, "
+            "new versions and expirations set for targets, snapshot and timestamp, 0..2 new targets added, signed with the online "
+            "keys (ECDSA key files), written, and loaded again. Facts compared before / after: every target of every role "
+            "(length, digest, custom data, unknown members), the delegation structure (keys, per role key ids / threshold / "
+            "paths / terminating), every delegated document and its signatures, the unknown top-level members of targets, "
+            "snapshot and timestamp, the versions. 150 / 2000 repositories.",
+    "explanation": "Theorem (Tough/Props/C17.lean, update_preserves): for every repository, every set of new versions and "
+                   "every list of added targets the update succeeds and yields the set versions, for every name the added "
+                   "target or else exactly the old one, the same delegation structure, and the same unknown members of "
+                   "targets, snapshot and timestamp; the code before the repair provably drops the snapshot's "
+                   "(old_build_snapshot_drops_extra). Correspondence: the facts of the re-loaded repository equal the "
+                   "model's result member by member.",
+    "level_text": "Kernel-checked preservation theorem of the editor's update path (a transcription of from_repo / build_targets / "
+                  "build_snapshot / build_timestamp); differential run over random repositories with custom data and unknown members.",
+    "level_note": "The model treats the delegation structure as one opaque value, as the editor does (it is cloned and written "
+                  "back); that the re-serialised delegated documents still verify is checked by re-loading (signatures are over "
+                  "the canonical form, C11/C12). The CLI route () is not driven; it calls the same library path.",
+    "trusted": ["the editor model (Tough/Model/Editor.lean) is a hand transcription of tough/src/editor/{mod,targets}.rs, checked only by correspondence"],
+    "assumptions": [],
+}
+
 _PENDING = "check under construction in this session (DESIGN.md §10 order of work); not claimed until it runs"
 NOT_APPLICABLE = {f"C{i:02d}": _PENDING for i in range(1, 21)}
